@@ -694,7 +694,7 @@ def run_fwdrev(rec):
         eq_type = "nonstatio_PDE" if withT else "statio_PDE"
         sp = make_poly_spinn(rec["coef"], d, R, M, eq_type)
         pi = make_pinn(rec["twin"], eq_type)
-        ep = {k: jnp.array(qf(v)) for k, v in rec["par"].items()}
+        ep = {k: jnp.array(qf(v)) for k, v in rec["par"].items() if isinstance(v, dict)}
         psp = jinns.parameters.Params(nn_params=sp.init_params(), eq_params=ep)
         ppi = jinns.parameters.Params(nn_params=pi.init_params(), eq_params=ep)
         X = jnp.asarray(np.array(rec["xs"], dtype=np.float64).T)           # (b, d)
@@ -730,6 +730,23 @@ def run_fwdrev(rec):
             pdp = jinns.parameters.ParamsDict(nn_params={"u": pi.init_params()}, eq_params={})
             fwd = np.asarray(dl.evaluate(x, {"u": sp}, pds)).reshape(nidx, 1)
             rev = np.asarray(jax.vmap(lambda p: jnp.ravel(dl.evaluate(p, {"u": pi}, pdp)))(jnp.asarray(grid_pts)))
+        elif op == "ns":
+            from jinns.loss import NavierStokes2DStatio
+            spp = make_poly_spinn(rec["coefP"], d, R, 1, eq_type)
+            pip = make_pinn(rec["twinP"], eq_type)
+            dl = NavierStokes2DStatio(Tmax=1, u_key="u", p_key="p")
+            pds = jinns.parameters.ParamsDict(nn_params={"u": sp.init_params(), "p": spp.init_params()}, eq_params=ep)
+            pdp = jinns.parameters.ParamsDict(nn_params={"u": pi.init_params(), "p": pip.init_params()}, eq_params=ep)
+            fwd = np.asarray(dl.evaluate(x, {"u": sp, "p": spp}, pds)).reshape(nidx, 2)
+            rev = np.asarray(jax.vmap(lambda q: jnp.ravel(dl.evaluate(q, {"u": pi, "p": pip}, pdp)))(jnp.asarray(grid_pts)))
+        elif op == "ou":
+            from jinns.loss import OU_FPENonStatioLoss2D
+            dl = OU_FPENonStatioLoss2D(Tmax=float(rec["Tmax"]))
+            epv = {k: jnp.array([qf(v) for v in rec["par"][k]]) for k in ("alpha", "mu", "sigma")}
+            psp = jinns.parameters.Params(nn_params=sp.init_params(), eq_params=epv)
+            ppi = jinns.parameters.Params(nn_params=pi.init_params(), eq_params=epv)
+            fwd = np.asarray(dl.evaluate(t, x, sp, psp)).reshape(nidx, 1)
+            rev = np.asarray(jax.vmap(lambda p: jnp.ravel(dl.evaluate(p[:1], p[1:], pi, ppi)))(jnp.asarray(grid_pts)))
         else:
             dl = (BurgerEquation if op == "burgers" else FisherKPP)(Tmax=float(rec["Tmax"]))
             fwd = np.asarray(dl.evaluate(t, x, sp, psp)).reshape(nidx, 1)
